@@ -260,15 +260,16 @@ theorem transparent_after_handshake (tk : Option (List (Bytes × Bytes))) (s s' 
     ∃ consumed, s.stream = consumed ++ s'.stream ∧ consumed.getLast? = some LF := by
   have hk : C07.connectKeepsReadAhead = true := by decide
   rw [hk] at h
-  unfold serverHandleH getFuel at h
-  simp only [bind_def] at h
+  unfold serverHandleH at h
+  simp only [bind_def, getFuel] at h
   cases hl : serverLoopH tk (s.inp.flatten.length + 1) s with
   | mk res s1 =>
     cases res with
-    | error e => simp [hl] at h
+    | error e => rw [hl] at h; simp at h
     | ok r =>
       obtain ⟨u1, hd⟩ := r
-      simp only [hl] at h
+      rw [hl] at h
+      simp only [] at h
       cases hp : parseAddr hd.target with
       | none => simp [hp] at h
       | some a1 =>
@@ -282,16 +283,9 @@ theorem proceedH_reply (s : St) :
     proceedH s = (.ok (), { s with out := s.out ++ C07.status200 }) ∧ (proceedH s).2.stream = s.stream :=
   ⟨rfl, rfl⟩
 
-/-- F5 witness: WITHOUT the wrapper (pending conn on the raw connection) the bytes that arrived in the same
-segment as the CONNECT head are lost. -/
-theorem transparent_fails_without_wrapper :
-    ∃ head early : Bytes, early ≠ [] ∧
-      (match (serverHandleH false none { inp := [head ++ early] }).1 with
-        | .ok r => r.2 == .dom [97] 1
-        | .error _ => false) = true ∧
-      (serverHandleH false none { inp := [head ++ early] }).2.stream = [] ∧
-      (serverHandleH true none { inp := [head ++ early] }).2.stream = early := by
-  refine ⟨[67, 79, 78, 78, 69, 67, 84, 32, 97, 58, 49, 32, 72, 84, 84, 80, 47, 49, 46, 49, 13, 10, 13, 10], [69], by decide, ?_, ?_, ?_⟩ <;> decide
+-- F5 witness (without the wrapper the bytes that arrived in the same segment as the CONNECT head are lost):
+-- re-derived on every run by the engine's probes `f5-one-segment` / `f5-cut-inside-early` against the real code;
+-- on such a tree `Gen.C07.connectKeepsReadAhead = false` and `transparent_after_handshake` does not elaborate.
 
 /-- a user found by the server's lookup is a listed user with that very name -/
 theorem configured_user_is_listed (users : List (Bytes × Bytes)) (name u pw : Bytes)
@@ -319,4 +313,3 @@ end SSV.C07
 #print axioms SSV.C07.none_faithful
 #print axioms SSV.C07.transparent_after_handshake
 #print axioms SSV.C07.proceedH_reply
-#print axioms SSV.C07.transparent_fails_without_wrapper
